@@ -30,6 +30,8 @@ template <class T> static void shrt44 (Gen<T>& g, int it)
     int mode = it % 5;
     Vec3<T> s0, h0, r0, t0;
     Matrix44<T> M = compose44<T> (g, mode, s0, h0, r0, t0);
+    // the whole linear block at a magnitude whose squares overflow / underflow (an exact power of two: the scale factor only)
+    if (mode < 4 && it % 15 >= 10) { T k = (T) std::ldexp (1.0, (it % 15 < 13 ? 1 : -1) * (sizeof (T) == 4 ? 70 : 520)); for (int i = 0; i < 3; ++i) for (int j = 0; j < 3; ++j) M[i][j] *= k; }
     Vec3<T> s, h, r, tr;
     bool ok = extractSHRT (M, s, h, r, tr, false);
     Matrix44<T> S, H, R, Tm;
@@ -111,6 +113,7 @@ template <class T> static void shrt33 (Gen<T>& g, int it)
     Matrix33<T> S, H, R, Tm;
     S.setScale (s0); H.setShear (h0); R.setRotation (r0); Tm.setTranslation (t0);
     Matrix33<T> M = S * H * R * Tm;
+    if (mode < 4 && it % 15 >= 10) { T k = (T) std::ldexp (1.0, (it % 15 < 13 ? 1 : -1) * (sizeof (T) == 4 ? 70 : 520)); for (int i = 0; i < 2; ++i) for (int j = 0; j < 2; ++j) M[i][j] *= k; }
     Vec2<T> s, tr; T h = 0, r = 0;
     bool ok = extractSHRT (M, s, h, r, tr, false);
     S.setScale (s); H.setShear (h); R.setRotation (r); Tm.setTranslation (tr);
